@@ -30,9 +30,14 @@ type builderLog struct {
 	all      []*built
 	failNext bool
 	calls    int
+	seam     bool
 }
 
 func (l *builderLog) build(bs []byte) (*built, error) {
+	if l.seam {
+		// the builder is a user callback and may be slow: a scheduling point
+		sched.Seam("builder")
+	}
 	l.mu.Lock()
 	defer l.mu.Unlock()
 	l.calls++
@@ -272,7 +277,7 @@ func (c c15scen) harness() func() *sched.Harness {
 				if err != nil {
 					panic(err)
 				}
-				log1, log2 = &builderLog{}, &builderLog{}
+				log1, log2 = &builderLog{seam: true}, &builderLog{seam: true}
 				u1, err = setec.NewUpdater(context.Background(), st, "d", log1.build)
 				if err != nil {
 					panic(err)
@@ -433,7 +438,7 @@ func (c c15scen) harness() func() *sched.Harness {
 func checkC15(t *testing.T, env *report.Env, rep *report.Report) {
 	rep.Assumptions = []string{
 		"'the value is rebuilt only if an install happened since the previous Get' is judged with overlap counting in favour of the code: a rebuild is accepted when some install's poll overlaps the time since the previous Get of that updater began",
-		"concurrent part: scheduling points are the store mutex, the updater mutex, the single-flight mutex and the service seams",
+		"concurrent part: scheduling points are the store mutex, the updater mutex, the single-flight mutex, the service seams and the builder callback (a user callback may be slow)",
 	}
 	scs := []c15scen{
 		{name: "1 install || g1(2 Gets)", installs: 1, g1: 2},
